@@ -17,6 +17,53 @@ class UnwindBound(ExecError):
     pass
 
 
+class Infeasible(ExecError):
+    """the current path condition is unsatisfiable (decided by the solver): the path is dropped"""
+    pass
+
+
+def int_feasible(lits):
+    """satisfiability over the integers of the integer-sorted part of a path condition (z3, linear integer arithmetic);
+    literals that are not purely integer are ignored (weaker condition => may only keep an infeasible path, never drop a feasible one)"""
+    try:
+        import z3
+    except Exception:
+        return True
+    vars_ = {}
+
+    def conv(t):
+        if t.op == 'c':
+            if t.p.denominator != 1:
+                raise ValueError
+            return z3.IntVal(int(t.p))
+        if t.op == 'sym' and t.sort == 'I':
+            return vars_.setdefault(t.p, z3.Int(t.p))
+        if t.sort == 'I' and t.op in ('add', 'sub', 'mul'):
+            a, b = conv(t.a[0]), conv(t.a[1])
+            return a + b if t.op == 'add' else (a - b if t.op == 'sub' else a * b)
+        if t.sort == 'I' and t.op == 'neg':
+            return -conv(t.a[0])
+        if t.op in ('eq', 'lt', 'le') and all(x.sort == 'I' for x in t.a):
+            a, b = conv(t.a[0]), conv(t.a[1])
+            return a == b if t.op == 'eq' else (a < b if t.op == 'lt' else a <= b)
+        if t.op == 'not':
+            return z3.Not(conv(t.a[0]))
+        if t.op == 'and':
+            return z3.And(conv(t.a[0]), conv(t.a[1]))
+        if t.op == 'or':
+            return z3.Or(conv(t.a[0]), conv(t.a[1]))
+        raise ValueError
+    sol = z3.Solver()
+    sol.set('timeout', 2000)
+    for c, b in lits:
+        try:
+            e = conv(c)
+        except ValueError:
+            continue
+        sol.add(e if b else z3.Not(e))
+    return sol.check() != z3.unsat
+
+
 class Terminal(Exception):
     """exit()/throw reached"""
     def __init__(self, kind, val):
@@ -92,6 +139,7 @@ class State(object):
         self.owned = set([0])        # region ids whose Region object is private to this state (copy-on-write)
         self.side_owned = set()      # side-table keys whose model object is private to this state
         self.distinct = []           # harness assumptions (Bool terms) that hold in this state
+        self.side_log = []           # keys of side-table entries written (used by the call-effect cache)
 
     def mut(self, rid):
         """Region object that may be mutated (copy-on-write across clones)"""
@@ -107,6 +155,7 @@ class State(object):
         return r
 
     def side_mut(self, key):
+        self.side_log.append(key)
         v = self.side[key]
         if key not in self.side_owned:
             v = v.clone()
@@ -115,6 +164,7 @@ class State(object):
         return v
 
     def side_set(self, key, v):
+        self.side_log.append(key)
         self.side[key] = v
         self.side_owned.add(key)
 
@@ -126,6 +176,7 @@ class State(object):
         s.side = dict(self.side)
         s.side_owned = set()
         s.distinct = list(self.distinct)
+        s.side_log = []
         s.events = list(self.events)
         s.pc = list(self.pc)
         s.next_rid = self.next_rid
@@ -157,6 +208,9 @@ def wrap(v, w):
 
 def width(t):
     return int(t[1:])
+
+
+_snap_cache = {}
 
 
 class Frame(object):
@@ -191,6 +245,8 @@ class Ex(object):
         self.steps = 0
         self.hooks = {}               # fname -> callable(ex, f, args) called at entry (instrumentation)
         self.called = set()
+        self.memo_fns = set()
+        self.memo = {}
         self.fp_log = None            # optional list collecting every FP constant decoded: (function, type, exact value)
 
     # ------------------------------------------------------------------------------------------
@@ -292,7 +348,12 @@ class Ex(object):
             return tm.sym('FP_' + kind.replace('-', 'neg'), 'R')
         if self.snap_mode == 'exact':
             return tm.const(v)
-        r = tm.snap(v, ty)
+        ck = (bits, ty)
+        hit = _snap_cache.get(ck)
+        if hit is None:
+            hit = tm.snap(v, ty)
+            _snap_cache[ck] = hit if hit is not None else False
+        r = hit if hit is not False else None
         if r is None and self.snap_mode == 'lenient' and ty == 'f80':
             r2 = tm.snap(v, 'f64')
             if r2 is not None and tm.round_to(r2, 53) == v:
@@ -518,7 +579,84 @@ class Ex(object):
         m = self.models.override(fname)
         if m is not None:
             return m(self, args, inst)
+        if fname in self.memo_fns:
+            return self.call_memo(fname, f, args)
         return self.run_function(f, args)
+
+    # ------------------------------------------------------------------------------------------
+    # call-effect cache: a deterministic, input-free constructor sequence (get_list_mms) is executed once per process;
+    # later calls re-instantiate its recorded effect with fresh region ids.  Valid because the callee reads nothing but
+    # constants and its (empty) output vector, makes no symbolic decision, and every region it touches is new or the argument.
+    @staticmethod
+    def _copy_region(r):
+        n = Region(r.rid, r.kind, r.size, r.name)
+        n.alive, n.data, n.fresh = r.alive, r.data, r.fresh
+        return n
+
+    def call_memo(self, fname, f, args):
+        st = self.st
+        from models import VecVal
+        vec = st.side.get((args[0].rid, args[0].off)) if len(args) == 1 and isinstance(args[0], Ptr) else None
+        if not isinstance(vec, VecVal) or vec.n != 0:
+            return self.run_function(f, args)
+        rec = self.memo.get(fname)
+        if rec is None:
+            base = st.next_rid
+            nw, ns, ne, nd = len(st.writes), len(st.side_log), len(st.events), len(self.decisions)
+            live0 = set(st.live_heap)
+            ret = self.run_function(f, args)
+            if len(self.decisions) != nd:
+                return ret
+            arg_r, buf_r = args[0].rid, vec.buf
+            touched = set((w[0], w[1]) for w in st.writes[nw:])
+            memw = [(k, st.mem[k]) for k in touched if k in st.mem]
+            ok = all(k[0] >= base or k[0] in (arg_r, buf_r) for k, _ in memw)
+            skeys = list(dict.fromkeys(st.side_log[ns:]))
+            ok = ok and all(k[0] >= base or k[0] in (arg_r, buf_r) for k in skeys)
+            if ok:
+                self.memo[fname] = dict(base=base, end=st.next_rid, arg=arg_r, buf=buf_r, regions=[self._copy_region(st.regions[r]) for r in range(base, st.next_rid)],
+                                        mem=memw, side=[(k, (st.side[k].clone() if k in st.side else None)) for k in skeys], events=st.events[ne:], writes=st.writes[nw:],
+                                        live=sorted(set(st.live_heap) - live0), ret=ret, bufsize=st.regions[buf_r].size)
+            return ret
+        delta = st.next_rid - rec['base']
+        amap = {rec['arg']: args[0].rid, rec['buf']: vec.buf}
+
+        def rr(rid):
+            if rid in amap:
+                return amap[rid]
+            return rid + delta if rid >= rec['base'] else rid
+
+        def rv(v):
+            if isinstance(v, Ptr):
+                return Ptr(rr(v.rid), v.off)
+            return v
+        for r in rec['regions']:
+            n = Region(r.rid + delta, r.kind, r.size, r.name)
+            n.alive, n.data, n.fresh = r.alive, r.data, r.fresh
+            st.regions[n.rid] = n
+            st.owned.add(n.rid)
+        st.next_rid = rec['end'] + delta
+        for (rid, off), (sz, v) in rec['mem']:
+            st.mem[(rr(rid), off)] = (sz, rv(v))
+        for (rid, off), obj in rec['side']:
+            if obj is None:
+                st.side.pop((rr(rid), off), None)
+                continue
+            o = obj.clone()
+            if hasattr(o, 'buf'):
+                o.buf = rr(o.buf)
+            if hasattr(o, 'entries'):
+                o.entries = [(k, rr(e)) for k, e in o.entries]
+                o.end = rr(o.end) if o.end is not None else None
+            st.side_set((rr(rid), off), o)
+        st.mut(vec.buf).size = rec['bufsize']
+        for e in rec['events']:
+            st.events.append(tuple(rr(x) if (i == 1 and e[0] in ('new', 'delete') and isinstance(x, int)) else x for i, x in enumerate(e)))
+        for w_ in rec['writes']:
+            st.writes.append((rr(w_[0]), w_[1], w_[2]))
+        for r in rec['live']:
+            st.live_heap.add(rr(r))
+        return rec['ret']
 
     def run_function(self, f, args):
         if self.depth > 200:
@@ -674,7 +812,23 @@ class Ex(object):
                     else:
                         if i.op == 'undef':
                             st.event('uninit-use', 'index', self.cur_fn)
-                        raise ExecError('symbolic GEP index in %s' % self.cur_fn)
+                            raise ExecError('uninitialised GEP index in %s' % self.cur_fn)
+                        # symbolic index into a small array: case split over the elements of the region; anything else is out of range
+                        reg = st.regions.get(b.rid) if isinstance(b, Ptr) else None
+                        n_el = (reg.size - b.off - off) // scale if reg is not None and reg.size and scale else 0
+                        if not (0 < n_el <= 64):
+                            raise ExecError('symbolic GEP index in %s' % self.cur_fn)
+                        chosen = None
+                        for k_ in range(n_el):
+                            if self.decide(tm.cmp('eq', i, tm.iconst(k_))):
+                                chosen = k_
+                                break
+                        if chosen is None:
+                            if not int_feasible(st.pc):
+                                raise Infeasible('index path condition is unsatisfiable over the integers')
+                            st.event('oob', 'array-index', 'symbolic index outside [0,%d)' % n_el, self.cur_fn)
+                            raise ExecError('array index out of range in %s' % self.cur_fn)
+                        i = chosen
                 off += i * scale
             if not isinstance(b, Ptr):
                 if isinstance(b, T) and b.op == 'undef':
@@ -771,6 +925,11 @@ class Ex(object):
                     return a
                 if c is tm.FALSE:
                     return b
+                if ins['t'] == 'i1':
+                    ba = a if isinstance(a, T) else (tm.TRUE if a else tm.FALSE)
+                    bb = b if isinstance(b, T) else (tm.TRUE if b else tm.FALSE)
+                    ba, bb = self.as_bool(ba), self.as_bool(bb)
+                    return tm.lor(tm.land(c, ba), tm.land(tm.lnot(c), bb))
                 ta, tb = self.termify(a, ins['t']), self.termify(b, ins['t'])
                 if ta is not None and tb is not None:
                     return tm.ite(c, ta, tb)
@@ -863,7 +1022,18 @@ class Ex(object):
             return r if p == 'eq' else tm.lnot(r)
         m = {'eq': 'eq', 'ne': 'ne', 'slt': 'lt', 'sle': 'le', 'sgt': 'gt', 'sge': 'ge',
              'ult': 'lt', 'ule': 'le', 'ugt': 'gt', 'uge': 'ge'}
-        if p[0] == 'u' and not (isinstance(b, int) and b >= 0):
+        if p[0] == 'u':
+            if isinstance(b, int) and b >= 0 and ta.sort == 'I':
+                # unsigned comparison of a (mathematical) integer with a non-negative constant: negative values wrap to huge ones
+                nonneg = tm.cmp('ge', ta, tm.iconst(0))
+                if p == 'ult':
+                    return tm.land(nonneg, tm.cmp('lt', ta, tb))
+                if p == 'ule':
+                    return tm.land(nonneg, tm.cmp('le', ta, tb))
+                if p == 'ugt':
+                    return tm.lor(tm.lnot(nonneg), tm.cmp('gt', ta, tb))
+                if p == 'uge':
+                    return tm.lor(tm.lnot(nonneg), tm.cmp('ge', ta, tb))
             self.st.notes.append(('unsigned-compare-symbolic', self.cur_fn))
         return tm.cmp(m[p], ta, tb)
 
@@ -965,6 +1135,9 @@ class Ex(object):
                 res['ret'] = thunk(self)
             except Terminal as t:
                 res['terminal'] = (t.kind, t.val)
+            except Infeasible:
+                work.extend(self.pending)
+                continue
             except ExecError as e:
                 res['error'] = e
             res['st'] = self.st
